@@ -47,6 +47,10 @@ structure Leaf (K : Type) where
   fn : Bool
   /-- the out-of-place body returns a raw array which `__call__` wraps by `range.element` -/
   raw : Bool
+  /-- the out-of-place body returns something that cannot be cast to the range (a string):
+  `op(x)` raises `OpRangeError`, the default in-place bridge lets the `ValueError` of
+  `range.element` through -/
+  junk : Bool := false
   /-- the map the leaf is supposed to compute -/
   phi : Vec K → Vec K
   /-- body run for `_call(x)` -/
@@ -108,6 +112,7 @@ def callO (jk : Nat → Vec K) : Op K → Nat → St K → Res K
           if ret = .other then .err .value s2 else .ok o s2
       | _ =>
           let (r, s1) := l.oop x s
+          if l.junk then .err .range s1 else
           if l.raw then
             -- `if out not in self.range: out = self.range.element(out)`
             let (r', s2) := alloc s1 (s1.mem r)
@@ -164,6 +169,7 @@ def callI (jk : Nat → Vec K) : Op K → Nat → Nat → St K → Res K
       | .oop =>
           -- _default_call_in_place: out.assign(range.element(_call_out_of_place(x)))
           let (r, s1) := l.oop x s
+          if l.junk then .err .value s1 else
           .ok y (s1.write y (s1.mem r))
       | _ =>
           let (ret, s1) := l.ip x y s
@@ -311,8 +317,9 @@ def scalarMultLeaf (v : Vec K) : Leaf K :=
 
 /-- Synthetic leaf for the dispatch correspondence: body `2·x`-like map `f`, any signature
 class, any return behaviour of the in-place body, raw or element out-of-place result. -/
-def synthLeaf (sg : Sig) (ret : Ret) (raw : Bool) (fn : Bool) (f : Vec K → Vec K) : Leaf K :=
-  { sig := sg, fn := fn, raw := raw, phi := f,
+def synthLeaf (sg : Sig) (ret : Ret) (raw : Bool) (fn : Bool) (junk : Bool)
+    (f : Vec K → Vec K) : Leaf K :=
+  { sig := sg, fn := fn, raw := raw, junk := junk, phi := f,
     oop := fun x s => alloc s (f (s.mem x)),
     ip := fun x y s => (ret, s.write y (f (s.mem x))) }
 
